@@ -153,7 +153,12 @@ def cell_request(cell, version):
                         if printed_importance:
                             continue
                         printed_importance = True
-                    words += ["M", hx(getattr(cell, attr)._format_as_text(version))]
+                    mod = getattr(cell, attr)
+                    text = mod._format_as_text(version)
+                    if not text and mod.set_in_cell_block and hasattr(cell, "_comments_after"):
+                        # a parameter that is written in the data block leaves its comments in the cell
+                        text = cell._comments_after(param)
+                    words += ["M", hx(text)]
                 else:
                     words += ["R"] + dump(param)
         captured = []
